@@ -20,6 +20,7 @@ CASE_DEADLINE = 30
 def setup(ctx):
     from smartquery import SqParser
     ctx.P = SqParser()
+    ctx.PC = SqParser(parse_cache={})
     ctx.draws = ctx.scale(120, 400)
 
 
@@ -33,6 +34,8 @@ def as_kind(n, kind):
         return n
     if kind == 'dec':
         return Decimal(n)
+    if kind == 'dectz':   # same value written with trailing fractional zeros (2.00): still an integer-valued number
+        return Decimal(str(n) + '.' + '0' * (1 + abs(n) % 3))
     if kind == 'decexp':  # same value, positive exponent when possible
         digits = str(abs(n))
         z = len(digits) - len(digits.rstrip('0')) if n != 0 else 0
@@ -52,9 +55,13 @@ def cases(ctx):
         yield ('ab', 'host', 1, 10, ('int', 'int'))
         yield ('rand0',)
         yield ('rand0-extreme',)
+        yield ('varying', [7, 3, 5, 1, 12])
+        yield ('varying', [2, 9, 4])
     n = ctx.scale(300, 4000)
     for i in range(n):
         r = rnd.random()
+        if i % 25 == 0:
+            yield ('varying', [rnd.randint(0, 50) for _ in range(rnd.randint(2, 6))])
         if r < 0.08:
             yield ('rand0',)
         elif r < 0.6:
@@ -66,7 +73,7 @@ def cases(ctx):
                 # (28-digit arithmetic, C08); such bounds are supplied as host ints instead
                 yield ('ab', 'lit', a, b, None)
             else:
-                ka, kb = rnd.choice(['int', 'dec', 'decexp', 'float', 'bool']), rnd.choice(['int', 'dec', 'decexp', 'float'])
+                ka, kb = rnd.choice(['int', 'dec', 'decexp', 'dectz', 'float', 'bool']), rnd.choice(['int', 'dec', 'decexp', 'dectz', 'float'])
                 if ka == 'bool':
                     a, b = rnd.choice([(0, 0), (0, 1), (1, 1), (0, 5), (1, 3)])
                 if 'float' in (ka, kb) and max(abs(a), abs(b)) > 2 ** 52:
@@ -125,10 +132,49 @@ def run_case(case, ctx):
                     break
         finally:
             random.random = real
+    elif kind == 'varying':
+        # one call site, bounds that change from one evaluation of it to the next (inside map, and across evals of one cached text)
+        ns = [Decimal(x) for x in case[1]]
+        PC = ctx.PC
+        for src in ('map(ns, n => rand(-n, n))', 'map(ns, n => rand(-n, -n))', 'map(ns, n => rand(n, n + 1))', 'map(ns, n => [rand(0 - n, 0), n][0])'):
+            for _ in range(3):
+                try:
+                    out = P.eval(src, {'ns': list(ns)}, None, 10 ** 4)
+                except Exception as e:
+                    ctx.violation('rand raised inside map for integer bounds', case, detail={'src': src, 'error': str(e)[:100]})
+                    ok = False
+                    break
+                ctx.count('draws_varying_bounds', len(out))
+                for n, v in zip(ns, out):
+                    lo, hi = {'map(ns, n => rand(-n, n))': (-n, n), 'map(ns, n => rand(-n, -n))': (-n, -n), 'map(ns, n => rand(n, n + 1))': (n, n + 1)}.get(src, (-n, 0))
+                    if not (lo <= v <= hi) or v != int(v):
+                        ctx.violation('rand(a, b) outside [a, b] when the same call site is evaluated with changing bounds', case, detail={'src': src, 'ns': repr(ns), 'result': repr(out)})
+                        ok = False
+                        break
+                if not ok:
+                    break
+            if not ok:
+                break
+        for n in ns:
+            if not ok:
+                break
+            v = PC.eval('rand(-n, n)', {'n': n})       # same text, cached tree, other n
+            ctx.count('draws_varying_bounds')
+            if not (-n <= v <= n) or v != int(v):
+                ctx.violation('rand(-n, n) outside [-n, n] on a caching parser after earlier calls with another n', case, detail={'n': repr(n), 'value': repr(v)})
+                ok = False
     elif kind == 'ab':
         _, mode, a, b, kinds = case
         if mode == 'lit':
-            src, names = 'rand(%s, %s)' % (lit(a), lit(b)), {}
+            form = (a * 31 + b) % 4 if max(abs(a), abs(b)) < 10 ** 12 else 0     # wide bounds stay plain literals (28-digit arithmetic would round computed ones)
+            if form == 0:
+                src, names = 'rand(%s, %s)' % (lit(a), lit(b)), {}
+            elif form == 1:
+                src, names = 'rand(%s.0, %s.00)' % (lit(a), lit(b)), {}          # integer-valued decimals with trailing zeros
+            elif form == 2:
+                src, names = 'rand(%s * 1.0, 0.5 * %s * 2)' % (lit(a), lit(b)), {}  # computed, integer-valued
+            else:
+                src, names = 'rand(0 - n, m)', {'n': -a, 'm': b}
         else:
             src, names = 'rand(a, b)', {'a': as_kind(a, kinds[0]), 'b': as_kind(b, kinds[1])}
         seen = set()
